@@ -54,7 +54,7 @@ def c16SendPrims (env : Env) (src : String) : Gen.TrD.SendPrims (List Data) Err 
   sameCircuit := true
   mkExc := fun kind _ => if kind = "TypeError" then .typeError else .valueError
   setSource := fun d => d.set "source" (Val.str src)
-  applyFilter := fun f d => (f.call env d).ret
+  applyFilter := fun f d => Gen.TrD.M.pure (f.call env d).ret
   isMapping := fun r => match r with | .mapping _ => true | .badKey => true | _ => false
   anyKeyNotStr := fun r => match r with | .badKey => true | _ => false
   asData := fun r => match r with | .mapping d => d | _ => []
